@@ -138,6 +138,21 @@ def mutate(text: str, rnd: random.Random) -> str:
     c = rnd.random()
     if not text or c < 0.05:
         return rnd.choice(["", "\x00", " ", "٣٤", "9" * 40, "-", "+", "\U0001F552", "Z", "0"])
+    if c < 0.12:
+        # range-edge field values: extreme years, hour 24 (valid only as 24:00:00 and only if the next day exists)
+        import re
+
+        t = text
+        m4 = re.search(r"-?\d{4,5}", t)
+        if m4 and rnd.random() < 0.7:
+            t = t[:m4.start()] + rnd.choice(["-9999", "-9998", "9999", "10000", "0000", "-0001", "0001"]) + t[m4.end():]
+        mt = re.search(r"\d{2}:\d{2}(:\d{2})?", t)
+        if mt and rnd.random() < 0.5:
+            t = t[:mt.start()] + rnd.choice(["24:00:00", "24:00", "24:00:01", "23:59:60"])[: mt.end() - mt.start()] + t[mt.end():]
+        md = re.search(r"(\d{4})-(\d{2})-(\d{2})", t)
+        if md and rnd.random() < 0.4:
+            t = t[:md.start(2)] + rnd.choice(["12-31", "02-29", "02-30", "01-01", "13-01", "00-10"]) + t[md.end(3):]
+        return t
     i = rnd.randrange(len(text))
     if c < 0.25:
         return text[:i] + text[i + 1:]
